@@ -338,8 +338,12 @@ def hostile_case(draw):
     n = tmpl.count("{H}")
     hot = draw(st.integers(0, max(0, n - 1)))
     fills = []
+    # positions that take a list (patterns, glyph bitmaps, melodies) get list-valued hostile values half of the time
+    listy = [v for v in pool if v.startswith(("[", "("))] + ["[1, 0, 1e999, 2]", "[0, 1, -1e400]", "[float('inf'), 1]", "[1, 2, 3, 4, 5, 6, 7, float('nan')]", "[[1], 2]", "[1, 'a']", "[None]", "[1] * 10**9"]
+    wants_list = any(w in tmpl for w in ("pat = {H}", "flash_pattern({H}", "g = {H}", "glyph({H}, {H})", "melody({H}", "items = "))
     for k in range(n):
-        fills.append(draw(st.sampled_from(pool)) if k == hot or draw(st.integers(0, 3)) == 0 else draw(st.sampled_from(safe_fill)))
+        src_pool = listy if (wants_list and draw(st.booleans())) else pool
+        fills.append(draw(st.sampled_from(src_pool)) if k == hot or draw(st.integers(0, 3)) == 0 else draw(st.sampled_from(safe_fill)))
     text = tmpl
     for f in fills:
         text = text.replace("{H}", f, 1)
@@ -396,7 +400,7 @@ noise = st.one_of(
 
 def plan(tier):
     q = tier == "quick"
-    units = [(f"hostile-{i}", {"what": "hostile", "n": 400 if q else 12000}) for i in range(6)]
+    units = [(f"hostile-{i}", {"what": "hostile", "n": 800 if q else 12000}) for i in range(6)]
     units += [(f"corpus-{i}", {"what": "corpus", "n": 300 if q else 8000}) for i in range(4)]
     units += [(f"noise-{i}", {"what": "noise", "n": 400 if q else 12000}) for i in range(4)]
     units += [(f"atheris-{i}", {"what": "atheris", "n": 15 if q else 600}) for i in range(2 if q else 8)]
